@@ -66,6 +66,9 @@ def write_sites(g, x):
         if a.op in WRITE_OPS:
             for k, v in LOCS.items():
                 if a.on(k):
+                    # a cell allocated during the call (a stream being created) is a class of its own
+                    if v == 'stream position' and a.paths and all(p_.startswith('<call:') for p_ in a.paths):
+                        v = v + ' (cell allocated in this call)'
                     out.add(owner(g, a.nid) + (v, a.op))
     return out
 
@@ -95,6 +98,8 @@ def _run(ctx):
         'writers count': [ctx.fn1(r'^<multiqueue::InnerSend<.*> as std::clone::Clone>::clone$'), ctx.fn1(r'^<multiqueue::InnerSend<.*> as std::ops::Drop>::drop$')],
         'consumer count': [ctx.fn1(r'^<multiqueue::InnerRecv<.*> as std::clone::Clone>::clone$'), ctx.fn1(r'^<multiqueue::InnerRecv<.*> as std::ops::Drop>::drop$')],
         'stream list': [ctx.fn1(r'^multiqueue::InnerRecv::<.*>::add_stream$'), ctx.fn1(r'^<multiqueue::InnerRecv<.*> as std::ops::Drop>::drop$')],
+        # placing a stream that is not published yet (P10a decides what it is placed at, and that it happens before publication)
+        'stream position (cell allocated in this call)': [ctx.fn1(r'^multiqueue::InnerRecv::<.*>::add_stream$'), ni],
     }
     for r in [snd] + shared + view + [dq]:
         for fl in FLAVOURS:
@@ -114,6 +119,9 @@ def _run(ctx):
             if not re.match(r'^(<&?(\'a )?)?(broadcast|mpmc)::', name):
                 continue
         if is_dead(F, name):
+            continue
+        # a helper that is new relative to the reference tree is swept as part of the functions that call it
+        if name in F.fresh and ctx.revcg().get(name):
             continue
         n += 1
         for fl in FLAVOURS:
